@@ -2098,6 +2098,11 @@ func (l *Loader) loadByContext(ctx context.Context, source DataSource, fetchItem
 		}
 
 		if item.err != nil {
+			if leaderCancelled(ctx, item.err) {
+				// The leader's own client went away; that is not a failure of this request.
+				// Load on our own instead of failing with somebody else's cancellation.
+				return l.loadByContextDirect(ctx, source, headers, input, res)
+			}
 			return item.err
 		}
 
@@ -2142,6 +2147,12 @@ func (l *Loader) loadByContext(ctx context.Context, source DataSource, fetchItem
 		}
 	}
 	return nil
+}
+
+// leaderCancelled reports whether a shared single flight error is the cancellation of the
+// leader's context (its client disconnected) while the follower's own context ctx is still alive.
+func leaderCancelled(ctx context.Context, err error) bool {
+	return ctx.Err() == nil && errors.Is(err, context.Canceled)
 }
 
 func (l *Loader) loadByContextDirect(ctx context.Context, source DataSource, headers http.Header, input []byte, res *result) error {
